@@ -559,7 +559,9 @@ impl BsUnit {
         match self.lazy_part.get() {
             None => UnitResult::Reload,
             Some(additional) => {
-                let functions = additional.function_name_index.get(template);
+                let functions = additional
+                    .function_name_index
+                    .get_by_parts(NamespaceHierarchy::split_path(template));
 
                 UnitResult::Ok(
                     functions
